@@ -42,7 +42,21 @@ theorem collect_sum (p c : List K) (h : p.length = c.length) : (collect p c).sum
       simp only [collect, List.zipWith_cons_cons, List.sum_cons] at this ⊢
       rw [this]; ring
 
+/-- … over any number of steps without reset: the pixels hold the initial charge plus everything generated -/
+theorem collectRun_sum (p : List K) (cs : List (List K)) (h : ∀ c ∈ cs, c.length = p.length) :
+    (collectRun p cs).sum = p.sum + (cs.map List.sum).sum := by
+  induction cs generalizing p with
+  | nil => simp [collectRun]
+  | cons c rest ih =>
+    have hc : p.length = c.length := (h c (by simp)).symm
+    have hl : (collect p c).length = p.length := by rw [collect_length]; omega
+    simp only [collectRun, List.map_cons, List.sum_cons]
+    rw [ih (collect p c) (fun d hd => by rw [hl]; exact h d (by simp [hd])), collect_sum p c hc]
+    ring
+
 example : collect [(1:ℚ), 2, 3] [10, 0, 5] = [11, 2, 8] := by decide +kernel
+example : collectRun [(1:ℚ), 2] [[10, 0], [5, 5]] = [16, 7] ∧ generated [(0:ℚ), 0] [[1, 2], [0, 40]] = [1, 42] := by
+  decide +kernel
 
 /-! ## photo-conversion -/
 
